@@ -188,7 +188,7 @@ Lemma recv_conts cfg mk o mt comp : forall kps acc st fuel,
               cclosed st' = cclosed st.
 Proof.
   induction kps as [|[k p] r IH]; intros acc st fuel Hne Hok Hlim Hc Hm Ht Ht0 Hcomp Hex Hcl o1 out Hout Hmt; [congruence|].
-  inversion Hok as [|? ? Hkp Hok']; subst.
+  pose proof (Forall_inv Hok) as Hkp. pose proof (Forall_inv_tail Hok) as Hok'.
   assert (MT : mt_after st (mkf (match r with [] => true | _ :: _ => false end) false 0 mk k p) = msg_type st).
   { unfold mt_after. destruct (N.eqb_spec (msg_type st) 0); [congruence|reflexivity]. }
   assert (CP : comp_after st (mkf (match r with [] => true | _ :: _ => false end) false 0 mk k p) = compress st).
@@ -199,16 +199,18 @@ Proof.
     pose proof (kp_wf mk true false 0 (k, p) Hkp ltac:(lia)) as W. cbn [fst snd] in W.
     destruct (step_data_fin cfg st o _ [] acc Hc W ltac:(apply Hkp) Hlim eq_refl eq_refl Hm
                 ltac:(rewrite Hex; reflexivity)) as (st4 & C4 & M4 & T4 & _ & E4 & K4 & CC4 & Hs).
-    rewrite MT, CP in Hs. cbn [payload] in Hs.
+    rewrite MT, CP, Hcomp in Hs. cbn [payload] in Hs.
     unfold payloads in Hout. cbn [map concat snd] in Hout. rewrite app_nil_r in Hout.
     unfold outcome in Hout.
     assert (Hd : step cfg st o = dispatch cfg st4 o1 (msg_type st) out).
-    { rewrite Hs. destruct (compress st).
+    { rewrite Hs. destruct comp.
       - destruct (repr (acc ++ p)); [|discriminate].
         destruct (pop_infl o) as [script o2]. destruct (read_all 0 [] script); [|discriminate].
         now injection Hout as <- <-.
       - now injection Hout as <- <-. }
-    rewrite (dispatch_msg cfg st4 o1 (msg_type st) out) in Hd by (auto; congruence).
+    assert (K4' : closed st4 = false) by congruence.
+    assert (Hmt' : msg_type st = 2 \/ (msg_type st = 1 /\ utf8_valid out = true)) by (rewrite Ht; exact Hmt).
+    rewrite (dispatch_msg cfg st4 o1 (msg_type st) out K4' Hmt') in Hd.
     exists st4. split; [|repeat split; auto; congruence].
     cbn [length plus]. apply frame_loop_last; auto. congruence.
   - (* a middle frame, then the rest *)
@@ -224,4 +226,103 @@ Proof.
     exists st'. split; [|destruct R as (? & ? & ? & ? & ? & ?); repeat split; auto; congruence].
     change (S (length ((k, p) :: kp2 :: r')) + fuel)%nat with (S (S (length (kp2 :: r')) + fuel)).
     rewrite (frame_loop_cont _ cfg st o st1 Hcl Hs). exact HL.
+Qed.
+
+(* ---------- a whole message on the receiving side ---------- *)
+Definition idle (st : state) : Prop :=
+  cache st = [] /\ message st = None /\ msg_type st = 0 /\ expecting st = false /\ closed st = false.
+
+Lemma valid_first encomp mt fi rsv : mt = 1 \/ mt = 2 -> (rsv = true -> encomp = true) ->
+  valid_frame encomp mt fi rsv false false false = None.
+Proof. intros [->| ->] H; destruct rsv, encomp, fi; try reflexivity; specialize (H eq_refl); discriminate. Qed.
+
+Lemma recv_message cfg mk o mt rsv kps st fuel :
+  kps <> [] -> Forall (kp_ok mk) kps -> msg_limit cfg = 0 -> mt = 1 \/ mt = 2 ->
+  (rsv = true -> enable_compression cfg = true) ->
+  cache st = wire_of (msg_frames mk mt rsv kps) -> message st = None -> msg_type st = 0 -> expecting st = false ->
+  closed st = false ->
+  forall o1 out, outcome cfg o rsv (payloads kps) = Some (o1, out) ->
+  mt = 2 \/ (mt = 1 /\ utf8_valid out = true) ->
+  exists st', frame_loop (S (length kps) + fuel) cfg st o = (st', o1, [EvMsg mt out], None) /\
+              cache st' = [] /\ message st' = None /\ msg_type st' = 0 /\ expecting st' = false /\ closed st' = false /\
+              cclosed st' = cclosed st.
+Proof.
+  intros Hne Hok Hlim Hmt12 Hrsv Hc Hm Ht Hex Hcl o1 out Hout Hmt.
+  destruct kps as [|[k p] r]; [congruence|].
+  pose proof (Forall_inv Hok) as Hkp. pose proof (Forall_inv_tail Hok) as Hok'.
+  assert (Hop : mt < 16) by (destruct Hmt12; lia).
+  assert (Hd : is_data mt = true) by (destruct Hmt12 as [->| ->]; reflexivity).
+  assert (MT : forall fi, mt_after st (mkf fi rsv mt mk k p) = mt) by (intros; unfold mt_after; rewrite Ht; reflexivity).
+  assert (CP : forall fi, comp_after st (mkf fi rsv mt mk k p) = rsv) by (intros; unfold comp_after; rewrite Ht; reflexivity).
+  destruct r as [|kp2 r'].
+  - cbn [msg_frames cont_frames wire_of flat_map] in Hc.
+    pose proof (kp_wf mk true rsv mt (k, p) Hkp Hop) as W. cbn [fst snd] in W.
+    destruct (step_data_fin cfg st o _ [] [] Hc W ltac:(apply Hkp) Hlim Hd eq_refl Hm
+                ltac:(rewrite Hex; now apply valid_first)) as (st4 & C4 & M4 & T4 & _ & E4 & K4 & CC4 & Hs).
+    rewrite MT, CP in Hs. cbn [payload app] in Hs.
+    unfold payloads in Hout. cbn [map concat snd] in Hout. rewrite app_nil_r in Hout. unfold outcome in Hout.
+    assert (Hdd : step cfg st o = dispatch cfg st4 o1 mt out).
+    { rewrite Hs. destruct rsv.
+      - destruct (repr p); [|discriminate].
+        destruct (pop_infl o) as [script o2]. destruct (read_all 0 [] script); [|discriminate].
+        now injection Hout as <- <-.
+      - now injection Hout as <- <-. }
+    assert (K4' : closed st4 = false) by congruence.
+    rewrite (dispatch_msg cfg st4 o1 mt out K4' Hmt) in Hdd.
+    exists st4. split; [|repeat split; auto].
+    cbn [length plus]. apply frame_loop_last; auto.
+  - cbn [msg_frames cont_frames wire_of flat_map] in Hc. fold (wire_of (cont_frames mk (kp2 :: r'))) in Hc.
+    pose proof (kp_wf mk false rsv mt (k, p) Hkp Hop) as W. cbn [fst snd] in W.
+    destruct (step_data_nonfin cfg st o _ _ [] Hc W ltac:(apply Hkp) Hlim Hd eq_refl Hm
+                ltac:(rewrite Hex; now apply valid_first)) as (st1 & Hs & C1 & M1 & T1 & P1 & E1 & K1 & CC1).
+    rewrite MT in T1. rewrite CP in P1. cbn [payload app] in M1.
+    assert (Hout' : outcome cfg o rsv (p ++ payloads (kp2 :: r')) = Some (o1, out)) by exact Hout.
+    assert (Hmt0 : mt <> 0) by (destruct Hmt12; lia).
+    destruct (recv_conts cfg mk o mt rsv (kp2 :: r') p st1 fuel ltac:(discriminate) Hok' Hlim C1 M1 T1 Hmt0 P1 E1
+                 ltac:(congruence) o1 out Hout' Hmt) as (st' & HL & R).
+    exists st'. split; [|destruct R as (? & ? & ? & ? & ? & ?); repeat split; auto; congruence].
+    change (S (length ((k, p) :: kp2 :: r')) + fuel)%nat with (S (S (length (kp2 :: r')) + fuel)).
+    rewrite (frame_loop_cont _ cfg st o st1 Hcl Hs). exact HL.
+Qed.
+
+Lemma encode_len_ge2 f : (2 <= length (encode_frame f))%nat.
+Proof.
+  rewrite encode_split, app_length, hdr_bytes_length. unfold hl_of. cbv zeta.
+  destruct (_ <? 126); [lia|]. destruct (_ <=? 65535); lia.
+Qed.
+
+Lemma wire_len_ge fs : (2 * length fs <= length (wire_of fs))%nat.
+Proof.
+  induction fs as [|f r IH]; [cbn; lia|]. unfold wire_of in *. cbn [flat_map length].
+  rewrite app_length. pose proof (encode_len_ge2 f). lia.
+Qed.
+
+Lemma msg_frames_length mk mt rsv kps : length (msg_frames mk mt rsv kps) = length kps.
+Proof.
+  destruct kps as [|[k p] r]; [reflexivity|]. cbn [msg_frames length]. f_equal.
+  induction r as [|[k2 p2] r' IH]; [reflexivity|]. cbn [cont_frames length]. now rewrite IH.
+Qed.
+
+(* Parse on an idle connection that is given exactly the frames of one message *)
+Lemma parse_message cfg mk o mt rsv kps st :
+  kps <> [] -> Forall (kp_ok mk) kps -> msg_limit cfg = 0 -> mt = 1 \/ mt = 2 ->
+  (rsv = true -> enable_compression cfg = true) -> idle st ->
+  forall o1 out, outcome cfg o rsv (payloads kps) = Some (o1, out) ->
+  mt = 2 \/ (mt = 1 /\ utf8_valid out = true) ->
+  exists st', parse_call cfg st (wire_of (msg_frames mk mt rsv kps)) o = (st', o1, [EvMsg mt out], None) /\ idle st'.
+Proof.
+  intros Hne Hok Hlim Hmt12 Hrsv (Ic & Im & It & Ie & Icl) o1 out Hout Hmt.
+  set (w := wire_of (msg_frames mk mt rsv kps)).
+  pose proof (wire_len_ge (msg_frames mk mt rsv kps)) as Hw. rewrite msg_frames_length in Hw. fold w in Hw.
+  assert (Hnz : (0 < length kps)%nat) by (destruct kps; [congruence|cbn; lia]).
+  unfold parse_call. destruct w as [|w0 wt] eqn:Ew; [cbn in Hw; lia|].
+  rewrite Icl, Ic. cbn [nonempty andb app].
+  rewrite andb_false_r. cbn [andb].
+  set (st1 := set_cache st (w0 :: wt)).
+  assert (Hfuel : exists fuel, S (length (cache st1)) = (S (length kps) + fuel)%nat).
+  { exists (length (w0 :: wt) - length kps)%nat. cbn [set_cache cache st1]. unfold st1. cbn [set_cache cache]. lia. }
+  destruct Hfuel as [fuel ->].
+  destruct (recv_message cfg mk o mt rsv kps st1 fuel Hne Hok Hlim Hmt12 Hrsv) with (o1 := o1) (out := out)
+    as (st' & HL & C' & M' & T' & E' & K' & _); auto.
+  exists st'. split; [exact HL|]. repeat split; auto.
 Qed.
